@@ -37,6 +37,11 @@ def big_schedules(n, bounds, rnd, deep):
         prev = c
     parts.append(n - prev)
     out.append([0] + parts + [0])
+    # one cut only, inside or right at a structure, the whole rest of the stream as the next chunk
+    for b in sorted(set(bounds))[:14]:
+        for c in (b + 40, b - 1):
+            if 0 < c < n:
+                out.append([c, n - c])
     return out
 
 
@@ -46,12 +51,16 @@ def observe_image(fmt, data, bounds, rnd, deep, cls=None):
     from oslo_utils.imageutils import format_inspector as fi
     cls = cls or fi.ALL_FORMATS[fmt]
     out = []
-    for sched in big_schedules(len(data), bounds, rnd, deep):
+    scheds = big_schedules(len(data), bounds, rnd, deep)
+    for si, sched in enumerate(scheds + scheds[:1]):
         ev = []
 
         def cb(i, k, pos, inspector, obs, err):
             ev.append({'k': k, 'info': [{'r': nm, 'n': o[2]} for nm, o in sorted(obs.items())]})
-        r = insp.run(cls, data, sched, observe=cb)
+        # the bound is about what is held, whoever holds it and whatever happened before: the stream keeps coming
+        # after an inspector has refused it (a caller may go on feeding), and tracing changes nothing
+        factory = cls if si < len(scheds) else (lambda: cls(tracing=True))
+        r = insp.run(factory, data, sched, observe=cb, keep_feeding=True)
         out.append(({'fmt': fmt, 'ev': ev}, r['retained_max'], ri.describe(sched), r['err']))
     return out
 
@@ -105,7 +114,8 @@ def run(ctx):
         vh = [L for L in hostile if L['fmt'] == 'vhdx']
         rnd.shuffle(vh)
         # one of every combination of the announced-length family, a sample of the rest
-        special = [L for L in vh if (L.get('meta_len') != '1048576' or L.get('item_flags', '0') != '0') and L['item_len'] == '2^32-1']
+        special = [L for L in vh if (L.get('meta_len') != '1048576' or L.get('item_flags', '0') != '0' or L['item_off'] < 65536)
+                   and L['item_len'] == '2^32-1']
         hostile = keep + special + [L for L in vh if L not in special][:24]
     items = [(i, 'layout', L) for i, L in enumerate(hostile)]
     nfuzz = 250 if quick else 3000
